@@ -294,7 +294,7 @@ def w3 : Stmt := .select q1
   | .ok [.delete _ (some _) none none, .update _ _ [_] none none none, .insertValues _ [[_], [_]]] => true | _ => false)
 #guard eqbL (C10.script semiTok [toksStmt .MYSQL d2, toksStmt .MYSQL i2] true) (lexed "DELETE FROM `s.t`; INSERT IGNORE INTO `s.t` VALUES (1), ();")
 
-/-- **finding candidate (round trip, C01).**  A static PARTITION item whose KEY was written as a bracketed comparison is stored as a
+/-- **defect found here and repaired (round trip, C01; /repo e990ea0, known_findings X-C01-e990ea0).**  Before the repair:  A static PARTITION item whose KEY was written as a bracketed comparison is stored as a
 comparison whose left operand is a comparison; `ASTPartitionExpression.source` prints it with the general expression printer, which puts
 no brackets around a left operand of the same level — the printed text `PARTITION (a = b = c)` is refused by the partition parser (it reads
 a compute-level key, one operator, a compute-level value, then requires the end of the item).  Shown on the model (tokens of the printed
@@ -303,15 +303,16 @@ text); on the real code: `INSERT OVERWRITE TABLE t PARTITION ((a = b) = c) SELEC
 def pk : Stmt := .insertSelect (ih "INSERT_OVERWRITE" (tn "t") (some [cmp "EQ" (cmp "EQ" (col "a") (col "b")) (col "c")])) qa
 #guard (match pStatement .HIVE 2000 (lexed "INSERT OVERWRITE TABLE t PARTITION ((a = b) = c) SELECT b FROM u") with
   | .ok (p, []) => Drv.showVal p.toVal == Drv.showVal pk.toVal | _ => false)
+-- repaired in /repo e990ea0 (the partition printer brackets key and value above the compute level; `PR.prPartItem` follows): the printed text reads back
 #guard (match PR.prStmt .HIVE pk with
-  | .ok x => (match pStatement .HIVE 2000 (lexed x) with | .error .parse => true | _ => false) | .error _ => false)
+  | .ok x => (match pStatement .HIVE 2000 (lexed x) with | .ok (p, []) => Drv.showVal p.toVal == Drv.showVal pk.toVal | _ => false) | .error _ => false)
 
 -- the stored strings of concrete statements, in print order
 #guard leaves i1 == ["t", "a", "t", "b", "1", "'x'", "a", "2", "p", "q", "1", "1", "f", "1", "2"] &&
   leaves u2 == ["x", "b", "u", "t", "a", "1", "a", "b"] && leaves d2 == ["s", "t"] &&
   leaves d1 == ["t", "a", "1", "b", "b", "u", "a", "5", "10"]
-/-- the same witness on the token level, checked by the kernel: the rendering of `pk` (what the printer emits for the tree the parser built)
-is refused by `pStatement`, and `pk` is outside the fragment -/
+/-- why the brackets are needed, checked by the kernel: the UNBRACKETED rendering of `pk` (what the printer emitted before the repair; `toksStmt` adds no
+brackets in PARTITION items, which is why such keys are outside `FragStmt`) is refused by `pStatement` -/
 theorem partition_key_not_reparsed :
     (match pStatement .HIVE 400 (toksStmt .HIVE pk) with | .error .parse => true | _ => false) = true ∧ FragStmt .HIVE pk = false := by
   decide
